@@ -71,7 +71,8 @@ RanSilently(s, B, sn, h) ==
     \/ /\ Eng(s, h) = "LOCAL" /\ s.D[h].active
        /\ \/ BatchCalls(B, h) > 0
           \/ ((s.cfg.cutoff = 1 \/ s.cfg.cache = 1) /\ h \in SnapIds(sn) /\ SnapRec(sn, h).act = 0)
-    \/ /\ Eng(s, h) = "CMA" /\ s.D[h].active /\ BatchCalls(B, h) > 0 /\ SelfStopped(s, sn, h)
+    \/ /\ Eng(s, h) = "CMA" /\ s.D[h].active /\ SelfStopped(s, sn, h)
+       /\ (BatchCalls(B, h) > 0 \/ s.cfg.cutoff = 1 \/ s.cfg.cache = 1)     \* (its evaluations may all have been refused / memoised)
 \* Where and how often a deme consults the conditions inside its metaepoch is not fixed by any property (an engine that
 \* has terminated itself need not ask anybody; the local condition may be asked before the global one, which is then asked
 \* only if the deme would go on).  A turn the deme ended without the consults the model was waiting for is closed here:
@@ -80,7 +81,8 @@ RanSilently(s, B, sn, h) ==
 CloseTurn(s, B, sn) ==
     LET d  == s.cur
         k  == BatchCalls(B, d)
-        s1 == IF s.await = "-" /\ k > 0 /\ Eng(s, d) \in PopEngines \cup ShotEngines
+        invisible == k = 0 /\ s.gen = 0 /\ (s.cfg.cutoff = 1 \/ s.cfg.cache = 1)      \* a first iteration without a visible call
+        s1 == IF s.await = "-" /\ (k > 0 \/ invisible) /\ Eng(s, d) \in PopEngines \cup ShotEngines
               THEN (IF EnIter(s, d) THEN DoIter(s, d, k) ELSE [DoIter(s, d, k) EXCEPT !.gen = s.gen]) ELSE s
         s2 == IF s1.await = "gsc" \/ (s1.await = "-" /\ s1.gen > 0) THEN [Commit(s1, d) EXCEPT !.await = "lsc"] ELSE s1
     IN IF s2.await = "lsc" THEN DoLsc(s2, d, FALSE, SelfStopped(s2, sn, d)) ELSE s
